@@ -170,17 +170,37 @@ def _strip_comments(text):
     return "".join(out)
 
 
-def lean_grep_forbidden():
+def lean_import_closure(module):
+    """source files of `module` and of every I18nVerif module it imports, transitively"""
+    seen, todo, files = set(), [module], []
+    while todo:
+        m = todo.pop()
+        if m in seen or not m.startswith("I18nVerif"):
+            continue
+        seen.add(m)
+        p = os.path.join(LEAN_DIR, *m.split(".")) + ".lean"
+        if not os.path.exists(p):
+            continue
+        files.append(p)
+        for line in open(p):
+            mm = re.match(r"\s*(?:public\s+)?import\s+(\S+)", line)
+            if mm:
+                todo.append(mm.group(1))
+    return files
+
+
+def lean_grep_forbidden(module=None):
+    """forbidden constructs in the sources the theorem module depends on (all of I18nVerif when no module is given)"""
     hits = []
-    for root in (os.path.join(LEAN_DIR, "I18nVerif"),):
-        for d, _, fs in os.walk(root):
-            for f in fs:
-                if f.endswith(".lean"):
-                    p = os.path.join(d, f)
-                    body = _strip_comments(open(p).read())
-                    for ln, line in enumerate(body.split("\n"), 1):
-                        if _FORBIDDEN.search(line):
-                            hits.append(f"{os.path.relpath(p, VERIF)}:{ln}: {line.strip()}")
+    if module is not None:
+        paths = lean_import_closure(module)
+    else:
+        paths = [os.path.join(d, f) for d, _, fs in os.walk(os.path.join(LEAN_DIR, "I18nVerif")) for f in fs if f.endswith(".lean")]
+    for p in paths:
+        body = _strip_comments(open(p).read())
+        for ln, line in enumerate(body.split("\n"), 1):
+            if _FORBIDDEN.search(line):
+                hits.append(f"{os.path.relpath(p, VERIF)}:{ln}: {line.strip()}")
     return hits
 
 
@@ -197,7 +217,7 @@ def lean_check(ctx, module, prefix):
             raise HarnessError("lake build of the driver failed:\n" + (out + err)[-3000:])
         ctx.broken.append({"kind": "proof", "name": module, "detail": msg})
         return False
-    hits = lean_grep_forbidden()
+    hits = lean_grep_forbidden(module)
     if hits:
         ctx.broken.append({"kind": "proof", "name": module, "detail": "forbidden construct: " + "; ".join(hits[:5])})
         return False
